@@ -283,3 +283,9 @@ def upvar_source(prog, closure_ctx, upvar_idx):
                     and s.rv.j.get("def") == path and upvar_idx < len(s.rv.ops):
                 return pctx, pctx.origins.of_operand(s.rv.ops[upvar_idx])
     return pctx, set()
+
+
+def root_fn(path):
+    """the named function a (possibly nested) closure/coroutine body belongs to"""
+    i = path.find("::{closure")
+    return path if i < 0 else path[:i]
